@@ -27,7 +27,7 @@ pub fn to_m(s: &Segment) -> M {
     let g = |bit: u16, sh: u16, mask: u16| p.and_then(|x| if x & bit != 0 { Some(((x >> sh) & mask) as u8) } else { None });
     M { root: s.root, man: s.manner, lar: s.laryngeal, sub: [g(0x8000, 10, 3), g(0x4000, 8, 3), g(0x2000, 2, 63), g(0x1000, 0, 3)] }
 }
-fn get(m: &M, node: u8) -> Option<u8> { match node { 0 => Some(m.root), 1 => Some(m.man), 2 => Some(m.lar), n => m.sub[(n - 3) as usize] } }
+pub fn get(m: &M, node: u8) -> Option<u8> { match node { 0 => Some(m.root), 1 => Some(m.man), 2 => Some(m.lar), n => m.sub[(n - 3) as usize] } }
 fn setn(m: &mut M, node: u8, v: u8) { match node { 0 => m.root = v, 1 => m.man = v, 2 => m.lar = v, n => m.sub[(n - 3) as usize] = Some(v) } }
 pub fn m_match(m: &M, node: u8, mask: u8, pos: bool) -> bool { match get(m, node) { None => false, Some(v) => if pos { v & mask == mask } else { v & mask == 0 } } }
 pub fn m_set(m: &mut M, node: u8, mask: u8, pos: bool) { if pos { let v = get(m, node).unwrap_or(0); setn(m, node, v | mask) } else if let Some(v) = get(m, node) { setn(m, node, v & !mask) } }
@@ -184,6 +184,18 @@ pub fn explore(ctx: &Ctx, shard: usize, n: usize) -> Report {
         let (fs3, pol3) = (fs.clone(), pol.clone());
         run_rule(&mut cx, format!("[] > [{}]", body.join(", ")), &segs, 1, &|m| { let mut e = *m; for (f, p) in fs3.iter().zip(&pol3) { m_set(&mut e, F[*f].1, F[*f].2, *p); } (Expect::Bundles(vec![e], false), e != *m) }, "set:conjunction");
     }
+    // 7b. a sub-node together with one of its own features (`[+lab, +round]`: the node is there afterwards and the feature has the value
+    //     named), and a sub-node removed together with a feature that lives elsewhere (`[-lab, +voice]`)
+    for (idx, nn) in SUBNODES.iter().enumerate() { for (fname, fnode, fmask) in F { for pos in [true, false] {
+        if !mine() { continue }
+        let own = fnode as usize == idx + 3;
+        if own {
+            run_rule(&mut cx, format!("[] > [+{nn}, {}{fname}]", sign(pos)), &segs, 2, &|m| { let mut e = *m; if e.sub[idx].is_none() { e.sub[idx] = Some(0) } m_set(&mut e, fnode, fmask, pos); (Expect::Bundles(vec![e], false), e != *m) }, &format!("set-node-and-own-feature:+{nn},{}{fname}", sign(pos)));
+            run_rule(&mut cx, format!("[] > [{}{fname}, +{nn}]", sign(pos)), &segs, 2, &|m| { let mut e = *m; if e.sub[idx].is_none() { e.sub[idx] = Some(0) } m_set(&mut e, fnode, fmask, pos); (Expect::Bundles(vec![e], false), e != *m) }, &format!("set-node-and-own-feature:{}{fname},+{nn}", sign(pos)));
+        } else if fnode < 3 {
+            run_rule(&mut cx, format!("[] > [-{nn}, {}{fname}]", sign(pos)), &segs, 5, &|m| { let mut e = *m; e.sub[idx] = None; m_set(&mut e, fnode, fmask, pos); (Expect::Bundles(vec![e], false), e != *m) }, &format!("remove-node-and-set-elsewhere:-{nn},{}{fname}", sign(pos)));
+        }
+    } } }
     // 8. alphas in multi-segment words: a binding made while a segment was being rejected must not
     //    survive to the next segment. `[αF, ±G] > [(-)αH]` is context-free, so every segment is
     //    rewritten independently; `[±G] > [(-)αH] / [αF] _` takes the value from the (already rewritten)
@@ -193,7 +205,7 @@ pub fn explore(ctx: &Ctx, shard: usize, n: usize) -> Report {
     let mut rng = Rng::new(ctx.seed, 0x408);
     for k in 0..nr {
         let (f, g, h) = (rng.below(26), rng.below(26), rng.below(26));
-        let (gp, inv, shape) = (rng.chance(1, 2), rng.chance(1, 2), rng.below(4));
+        let (gp, inv, shape) = (rng.chance(1, 2), rng.chance(1, 2), rng.below(6));
         let ws = rng.next();
         if k % n != shard || f == g { continue } // naming one feature twice in a matrix is not a meaningful rule
         let gtxt = format!("{}{}", sign(gp), F[g].0);
@@ -202,7 +214,11 @@ pub fn explore(ctx: &Ctx, shard: usize, n: usize) -> Report {
             0 => format!("[A{}, {gtxt}] > {out}", F[f].0),
             1 => format!("[{gtxt}, A{}] > {out}", F[f].0),
             2 => format!("[{gtxt}] > {out} / [A{}] _", F[f].0),
-            _ => format!("[{gtxt}] > {out} / _ [A{}]", F[f].0),
+            3 => format!("[{gtxt}] > {out} / _ [A{}]", F[f].0),
+            // two input elements that must agree in F: after a pair that does not agree, the scan goes on one segment further with
+            // nothing remembered of the failed attempt
+            4 => format!("[A{}] [A{}] > [{}{}] [{}{}]", F[f].0, F[f].0, sign(gp), F[h].0, sign(gp), F[h].0),
+            _ => format!("[A{}, {gtxt}] [A{}] > [{}{}] [{}{}]", F[f].0, F[f].0, sign(!inv), F[h].0, sign(inv), F[h].0),
         };
         let rules = match compile1(&rule) { Ok(r) => r, Err(o) => { viol(&mut cx, "alpha-multi:rule-rejected".into(), &rule, "", "parses".into(), o.tag()); continue } };
         let mut wr = Rng::new(ws, 3);
@@ -217,7 +233,22 @@ pub fn explore(ctx: &Ctx, shard: usize, n: usize) -> Report {
             if adj(&ms) { continue }
             let orig = ms.clone();
             let mut bad = false; let mut fired = 0;
+            if shape >= 4 {
+                let mut i = 0;
+                while i + 1 < len {
+                    let first_ok = shape == 4 || m_match(&ms[i], F[g].1, F[g].2, gp);
+                    let (a, b2) = (get(&ms[i], F[f].1), get(&ms[i + 1], F[f].1));
+                    let agree = match (a, b2) { (Some(x), Some(y)) => (x & F[f].2 != 0) == (y & F[f].2 != 0), _ => false };
+                    if first_ok && agree {
+                        let (p1, p2) = if shape == 4 { (gp, gp) } else { (!inv, inv) };
+                        m_set(&mut ms[i], F[h].1, F[h].2, p1); m_set(&mut ms[i + 1], F[h].1, F[h].2, p2);
+                        fired += 1; i += 2;
+                        if adj(&ms) { bad = true; break }
+                    } else { i += 1 }
+                }
+            }
             for i in 0..len {
+                if shape >= 4 { break }
                 if !m_match(&ms[i], F[g].1, F[g].2, gp) { continue }
                 let src = match shape { 0 | 1 => Some(ms[i]), 2 => if i > 0 { Some(ms[i - 1]) } else { None }, _ => if i + 1 < len { Some(orig[i + 1]) } else { None } };
                 let Some(src) = src else { continue };
